@@ -100,6 +100,38 @@ Theorem C12_wait_sound :
                  match ws' with [] => True | w :: _ => ~ wait_holds ar w end.
 Proof. exact wait_sound. Qed.
 
+(* a request the network stack refuses (put raises inside create_epr) leaves the queues,
+   the pending list, the log, the waiting subroutines and the unit module as they were ... *)
+Theorem C12_put_fault_leaves_queues_unchanged :
+  forall s k tpk vs n qarr args res s',
+  step s (CreateRefused k tpk vs n qarr args res) = (s', None) ->
+  reqs s' = reqs s /\ pend s' = pend s /\ log s' = log s /\ subs s' = subs s /\ um s' = um s /\
+  issued s' = issued s /\ next_req s' = next_req s /\
+  forall k' c, queue s' k' c = queue s k' c.
+Proof. exact put_fault_leaves_queues_unchanged. Qed.
+
+(* ... so when the application re-issues the create on a socket with nothing else outstanding,
+   the responses are charged to the retry (its result array), not to the refused request *)
+Theorem C12_retry_after_refusal_is_head :
+  forall nd k tpk vs n qarr args res vs2 n2 qarr2 args2 res2 ws s1 s2 s3 r,
+  step s1 (CreateRefused k tpk vs n qarr args res) = (s2, None) ->
+  step s2 (Create k tpk vs2 n2 qarr2 args2 res2 ws) = (s3, None) ->
+  node s1 = nd -> find (matches nd r) (reqs s1) = None ->
+  matches nd r (mkReq (next_req s1) k true (next_sid s2) res2 (if tpk then Some qarr2 else None) n2 n2) = true ->
+  exists q, find (matches nd r) (reqs s3) = Some q /\ q_res q = res2 /\ q_id q = next_req s1.
+Proof. exact retry_after_refusal_is_head. Qed.
+
+Example C12_refusal_nonvacuous :
+  match run (init_state 0 2) [CreateRefused (1, 0) true [0; 1] 2 0 1 2;
+                              Create (1, 0) true [0; 1] 2 3 4 5 [WAll 5 0 20];
+                              Resp (demo_resp true 0 1 101); Resp (demo_resp true 0 2 102); Poll 1] with
+  | Some s => log s = [(1, 0, 1); (0, 0, 0)]%nat /\ reqs s = [] /\ um s = [Some 101; Some 102] /\ subs s = [] /\
+              option_map (fun l => nth_error l 12) (aget Z.eqb 5 (arrs s)) = Some (Some (Some 102)) /\
+              option_map (fun l => nth_error l 2) (aget Z.eqb 2 (arrs s)) = Some (Some None)
+  | None => False
+  end.
+Proof. vm_compute. repeat split; reflexivity. Qed.
+
 (* the contract is needed (witnesses replayed on the implementation by the check) *)
 Definition C12_no_fault_unrestricted : Prop :=
   forall nd n es s r, run (init_state nd n) es = Some s -> snd (step s (Resp r)) <> Some EUnknownSub.
@@ -153,6 +185,8 @@ Print Assumptions C12_slice_qubit_no_overwrite.
 Print Assumptions C12_deferred_only_when_busy.
 Print Assumptions C12_drain_quiescent.
 Print Assumptions C12_wait_sound.
+Print Assumptions C12_put_fault_leaves_queues_unchanged.
+Print Assumptions C12_retry_after_refusal_is_head.
 Print Assumptions C12_issuer_dead_refuted.
 Print Assumptions C12_unrestricted_refuted.
 Print Assumptions C12_type_mismatch_refuted.
